@@ -304,5 +304,7 @@ def run(ctx):
     check_effect_tables(ctx, "C17")
     from ..rules_common import check_presence_tests, ARG_SCOPE
     check_presence_tests(ctx, "C17.PRESENCE", classes=ARG_SCOPE.get("C17", []))
+    from ..rules_common import check_param_rebinding
+    check_param_rebinding(ctx, "C17.PARAMS", classes=ARG_SCOPE.get("C17", []))
 
 
